@@ -1,7 +1,7 @@
 (* C20 - wire codecs: the property theorems, nothing else.  Each is closed by [exact] of a lemma proved in
    Codec/*.v and followed by Print Assumptions.  Bytes are Z values; payloads are arbitrary lists. *)
-From Icv Require Import Base.Tac Codec.NsModel Codec.NsDecimal Codec.NsProofs Codec.NsStreamProofs
-  Codec.JsModel Codec.JsProofs Codec.JsRoundtrip Codec.CodecOracle Codec.CodecOracleProofs Facts.Facts_c20.
+From Icv Require Import Base.Tac Codec.NsModel Codec.NsDecimal Codec.NsProofs Codec.NsEofProofs Codec.NsStreamProofs
+  Codec.JsModel Codec.JsProofs Codec.JsRoundtrip Codec.CodecOracle Codec.CodecOracleProofs Codec.CodecLimits Facts.Facts_c20.
 Local Open Scope Z_scope.
 
 (* ---- netstring, StreamReadContext variant (state file, replay log, objects file) ---- *)
@@ -50,6 +50,59 @@ Theorem C20_ns_buffered_item_within_limit : forall max buf p r,
 Proof. exact ns_buffered_item_within_limit. Qed.
 Print Assumptions C20_ns_buffered_item_within_limit.
 
+(* ---- the same reader at the END OF THE STREAM: the loop every caller runs
+        for (;;) { srs = ReadStringFromStream(...); if (srs == StatusEof) break; if (srs != StatusNewItem) continue; handle }
+   (ConfigObject::RestoreObjects, ApiListener::ReplayLog, the object/variable list readers).  [fills] is what the successive
+   FillFromStream calls deliver before the stream ends (a fill may be empty) ---- *)
+(* termination: for every input and every chunking the loop makes at most |input| + |fills| + 1 calls, however much
+   fuel it is given, and the last call answers StatusEof or throws - a truncated frame, a missing terminator, trailing
+   garbage never make it run on *)
+Theorem C20_ns_eof_terminates : forall max fills n,
+  (length (concat fills) + length fills + 1 <= n)%nat ->
+  let tr := fst (ns_loop n max ns_ctx_init fills) in
+  ns_trace_end tr <> NsEndFuel /\ (length tr <= length (concat fills) + length fills + 1)%nat.
+Proof. exact ns_eof_terminates. Qed.
+Print Assumptions C20_ns_eof_terminates.
+
+(* the frames handed over are exactly the complete frames in front of the remainder, whatever the remainder is:
+   an incomplete frame (nothing, part of a header, part of a payload, terminator missing) ends the loop with StatusEof
+   and stays in the buffer, a malformed one ends it with the reader's exception *)
+Theorem C20_ns_eof_prefix : forall max ps tail fills,
+  Forall (fun p => ns_len p < 10 ^ 9 /\ (max < 0 \/ ns_len p + 1 <= max)) ps ->
+  concat fills = concat (map ns_write ps) ++ tail ->
+  (ns_parse max tail = NsNeed -> ns_read_all max fills = (ps, NsEndEof, ns_len tail)) /\
+  (forall e, ns_parse max tail = NsErr e -> fst (ns_read_all max fills) = (ps, NsEndErr e)).
+Proof. exact ns_eof_prefix. Qed.
+Print Assumptions C20_ns_eof_prefix.
+
+(* ... and every byte string is of that form: the batch parse leaves an incomplete or a malformed remainder *)
+Theorem C20_ns_eof_remainder_cases : forall max input,
+  let '(fs, rest, e) := ns_drain_full max input in
+  match e with None => ns_parse max rest = NsNeed | Some e => ns_parse max rest = NsErr e \/ (e = 0 /\ ns_parse max rest = NsOob) end.
+Proof. exact ns_remainder_cases. Qed.
+Print Assumptions C20_ns_eof_remainder_cases.
+
+(* what the caller sees of a stream does not depend on how the bytes arrived *)
+Theorem C20_ns_eof_chunking_independent : forall max fills fills',
+  concat fills = concat fills' ->
+  fst (ns_read_all max fills) = fst (ns_read_all max fills') /\
+  (snd (fst (ns_read_all max fills)) = NsEndEof -> ns_read_all max fills = ns_read_all max fills').
+Proof. exact ns_eof_chunking_independent. Qed.
+Print Assumptions C20_ns_eof_chunking_independent.
+
+(* StatusNeedData after the last fill: at most once (the call that finds the buffered remainder incomplete; the next one
+   looks at the stream), never when the reader is about to look at the stream; the call that is told "end of stream"
+   answers StatusEof, and so does every later call *)
+Theorem C20_ns_eof_no_need_after_end : forall max,
+  (forall n c, ns_eof c = false -> (ns_count_need (fst (ns_loop n max c [])) <= (if ns_must c then 0 else 1))%nat) /\
+  (forall c, ns_eof c = false -> ns_must c = true ->
+             ns_ctx_read max c None = (NsStEof, {| ns_buf := ns_buf c; ns_must := true; ns_eof := true |})) /\
+  (forall c fill, ns_eof c = true -> ns_ctx_read max c fill = (NsStEof, c)).
+Proof.
+  intros max. split; [exact (ns_need_after_last_fill max)|]. split; [exact (ns_end_seen_is_eof max)|exact (ns_eof_latched max)].
+Qed.
+Print Assumptions C20_ns_eof_no_need_after_end.
+
 (* ---- netstring, AsioTlsStream variants (JSON-RPC connections) ---- *)
 (* strictness: accepted is exactly what the writer writes (canonical decimal length below 10^9 within the limit,
    ':' payload ','), every other prefix is an error or still incomplete *)
@@ -86,6 +139,39 @@ Theorem C20_ns_alloc_bounded : forall max input, 0 <= max -> 0 <= ns_stream_allo
 Proof. exact ns_stream_alloc_bounded. Qed.
 Print Assumptions C20_ns_alloc_bounded.
 
+(* ---- writer and readers, with the limits AS THEY STAND IN THE SOURCE (Facts_c20, regenerated on every run) ----
+   cd_src_limits = (digits every reader accepts in a length prefix, maxMessageLength of the file readers, of a connection with
+   an endpoint, of an anonymous connection); it is None unless the writer is recognised as the plain, limit-free
+   `stream << len << ":" << str << ","`, all three digit tests and limit tests have the shape the model has, and every caller of
+   the buffered reader passes the default limit.  Everything the writer emits for a payload below 10^digits bytes is accepted by
+   the file readers and by an endpoint's connection and gives back the payload; an anonymous connection accepts it exactly up to
+   its limit and refuses it by the limit test beyond. *)
+Theorem C20_writer_reader_limits_agree :
+  match cd_src_limits with
+  | None => True
+  | Some (digits, filemax, epmax, anonmax) =>
+      forall p rest, ns_len p < 10 ^ digits ->
+        ns_parse filemax (ns_write p ++ rest) = NsItem p rest /\
+        ns_read_stream epmax (ns_write p ++ rest) = NsSOk p rest /\
+        (ns_len p <= anonmax -> ns_read_stream anonmax (ns_write p ++ rest) = NsSOk p rest) /\
+        (anonmax < ns_len p -> exists tl, ns_read_stream anonmax (ns_write p ++ rest) = NsSErr ns_e_max tl)
+  end.
+Proof. exact cd_limits_agree. Qed.
+Print Assumptions C20_writer_reader_limits_agree.
+
+(* the limits are recognised in the source as it stands (not vacuous), and they are the ones the model has *)
+Theorem C20_source_limits : cd_src_limits = Some (9, -1, -1, 1048576).
+Proof. vm_compute. reflexivity. Qed.
+Print Assumptions C20_source_limits.
+
+(* the other side of the nine-digit rule: the writer has no limit, so for a payload of 10^9 bytes it emits a ten-digit
+   header - which every reader refuses, whatever follows and whatever its limit (asymmetry; such a message is 1 GB) *)
+Theorem C20_ns_writer_beyond_readers : forall max tail,
+  ns_parse max (ns_dec (10 ^ 9) ++ ns_colon :: tail) = NsErr ns_e_toolong /\
+  (exists tl, ns_read_stream max (ns_dec (10 ^ 9) ++ ns_colon :: tail) = NsSErr ns_e_toolong tl).
+Proof. exact cd_writer_beyond_readers. Qed.
+Print Assumptions C20_ns_writer_beyond_readers.
+
 (* ---- the executable oracles run over implementation traces accept every trace of the model ---- *)
 Theorem C20_oracle_buffered_accepts_model : forall max chunks c idx,
   ns_oracle_buffered max c idx (ns_model_feeds max c chunks) = None.
@@ -96,6 +182,26 @@ Theorem C20_oracle_frames_accepts_model : forall max frames chunks,
   ns_oracle_frames max frames (ns_model_feeds max ns_ctx_init chunks) = true.
 Proof. exact ns_oracle_frames_accepts_model. Qed.
 Print Assumptions C20_oracle_frames_accepts_model.
+
+Theorem C20_oracle_eof_accepts_model : forall max fills,
+  let '(items, e, size) := ns_read_all max fills in
+  ns_oracle_eof max (concat fills) items (ns_end_code e) size 1 = true.
+Proof. exact ns_oracle_eof_accepts_model. Qed.
+Print Assumptions C20_oracle_eof_accepts_model.
+
+(* the expectation of the writer-boundary oracle (payloads built inside the harness, sizes around 10^k) is what the model does on
+   EVERY payload of that length: header, total length, and - below 10^9 bytes - the payload comes back through the buffered reader
+   up to StatusEof / through the TLS reader iff the limit allows it, otherwise the reader throws "Max data length exceeded" *)
+Theorem C20_ns_writer_boundaries : forall max p,
+  let n := ns_len p in
+  ns_write p = (ns_dec n ++ [ns_colon]) ++ p ++ [ns_comma] /\
+  ns_len (ns_write p) = ns_len (ns_dec n) + n + 2 /\
+  (ns_wbig_back false max n = true -> ns_read_all max [ns_write p] = ([p], NsEndEof, 0)) /\
+  (ns_wbig_back true max n = true -> ns_read_stream max (ns_write p) = NsSOk p []) /\
+  (n < 10 ^ 9 -> ns_wbig_back false max n = false -> fst (ns_read_all max [ns_write p]) = ([], NsEndErr ns_e_max)) /\
+  (n < 10 ^ 9 -> ns_wbig_back true max n = false -> exists tl, ns_read_stream max (ns_write p) = NsSErr ns_e_max tl).
+Proof. exact ns_wbig_sound. Qed.
+Print Assumptions C20_ns_writer_boundaries.
 
 Theorem C20_oracle_stream_accepts_model : forall max input,
   let '(fs, e, r) := nss_run (S (length input)) max input in nss_oracle max input fs e r 0 = true.
@@ -157,6 +263,45 @@ Theorem C20_json_depth_covers_quantifier : match f_js_max_depth with Some m => 6
 Proof. vm_compute. reflexivity. Qed.
 Print Assumptions C20_json_depth_covers_quantifier.
 
+(* the SECOND decoder (JsonDecodeTrusted, /repo fix 9f18442): ConfigObject::RestoreObject reads the state file with it.
+   With the facts of the source as it stands - RestoreObject uses JsonDecodeTrusted, whose SAX handlers have no nesting
+   guard, and JsonEncode has none either - the decoder of the state file accepts WHATEVER JsonEncode writes, at any depth
+   (no js_fits premise; the other premises are those of C20_json_roundtrip) *)
+Theorem C20_json_restore_decoder_accepts_encoder :
+  match f_js_restore_trusted, f_js_trusted_max_depth, f_js_encode_unlimited with
+  | Some true, Some lim, Some true =>
+      forall (js_flt : Type) (js_fprint : js_flt -> list Z) (js_fparse : list Z -> option js_flt),
+      (forall x, js_fparse (js_fprint x) = Some x) ->
+      (forall x rest, match rest with [] => True | b :: _ => b = 44 \/ b = 93 \/ b = 125 end ->
+                      js_lex_num (js_fprint x ++ rest) = Some (js_fprint x, false, rest)) ->
+      (forall x, exists b t, js_fprint x = b :: t /\ (b = 45 \/ 48 <= b <= 57) /\ Forall (fun c => 0 <= c < 128) (b :: t)) ->
+      forall v : js_value js_flt, js_wf js_flt v -> js_sorted js_flt v ->
+      js_decode js_flt js_fparse lim (js_encode js_flt js_fprint v) = Some v
+  | _, _, _ => True
+  end.
+Proof. exact cd_json_trusted. Qed.
+Print Assumptions C20_json_restore_decoder_accepts_encoder.
+
+Theorem C20_source_json_decoders :
+  f_js_restore_trusted = Some true /\ f_js_trusted_max_depth = Some None /\ f_js_encode_unlimited = Some true.
+Proof. repeat split. Qed.
+Print Assumptions C20_source_json_decoders.
+
+(* why the second decoder exists: arrays nested one deeper than the network limit are written by JsonEncode, read back by the
+   decoder without limit, refused by the network decoder; at the limit both read them back *)
+Theorem C20_json_depth_contrast :
+  let enc := js_encode Empty_set (fun f => match f with end) in
+  let dec := js_decode Empty_set (fun _ => None) in
+  match f_js_max_depth with
+  | Some m =>
+      dec None (enc (cd_nest (Z.to_nat m))) = Some (cd_nest (Z.to_nat m)) /\
+      dec (Some m) (enc (cd_nest (Z.to_nat m))) = None /\
+      dec (Some m) (enc (cd_nest (Z.to_nat m - 1))) = Some (cd_nest (Z.to_nat m - 1))
+  | None => True
+  end.
+Proof. exact cd_json_depth_contrast. Qed.
+Print Assumptions C20_json_depth_contrast.
+
 (* whole values: kernel-evaluated instances only (floats instantiated by an empty type: integers only) *)
 Example C20_json_roundtrip_examples :
   let dec := js_decode Empty_set (fun _ => None) f_js_max_depth in
@@ -203,4 +348,15 @@ Example C20_nonvacuous :
     = (ps, {| ns_buf := []; ns_must := true; ns_eof := false |}, None) /\
   ns_read_stream 1 [50; 58; 104; 105; 44] = NsSErr ns_e_max [104; 105; 44] /\
   ns_read_stream (-1) [48; 49; 58; 104; 44] = NsSErr ns_e_lead0 [58; 104; 44].
+Proof. vm_compute. repeat split. Qed.
+
+(* non-vacuity, end of stream: "2:hi," then a frame cut inside its payload, inside its header, before its terminator
+   -> the first frame, StatusEof, the remainder in the buffer; a malformed remainder -> the first frame, exception *)
+Example C20_eof_nonvacuous :
+  ns_read_all (-1) [[50; 58; 104]; [105; 44; 51; 58; 97]] = ([[104; 105]], NsEndEof, 3) /\
+  ns_read_all (-1) [[50; 58; 104; 105; 44; 49]] = ([[104; 105]], NsEndEof, 1) /\
+  ns_read_all (-1) [[50; 58; 104; 105; 44; 49; 58; 97]] = ([[104; 105]], NsEndEof, 3) /\
+  ns_read_all (-1) [[50; 58; 104; 105; 44; 10]] = ([[104; 105]], NsEndEof, 1) /\
+  fst (ns_read_all (-1) [[50; 58; 104; 105; 44]; []; [49; 58; 97; 59]]) = ([[104; 105]], NsEndErr ns_e_nocomma) /\
+  fst (ns_loop 100 (-1) ns_ctx_init [[50; 58; 104; 105; 44; 49]]) = [NsStNew [104; 105]; NsStNeed; NsStEof].
 Proof. vm_compute. repeat split. Qed.
